@@ -391,9 +391,101 @@ Section Judge.
     end.
 End Judge.
 
+(* ---------------- the same buffers used again ----------------
+   Decoding is a function of the BYTES: the decoder owns nothing of the caller's slice.  A caller
+   keeps the compressed encoding it received (to decode it again, to compare, to store or to
+   re-broadcast it), so for every decompression the driver keeps the input buffer, decodes the
+   SAME buffer three times, compares the buffer with a copy taken before, and compresses the
+   decoded point again.  Likewise Compress must leave its point, and G1HashToPoint its message,
+   as they were.  A [ucase] is a [case] (first decode) plus these observations. *)
+Inductive ucase :=
+(* c: Compress(pt), copied right after the call; d d2 d3: three decodes of the one buffer holding
+   c; c_after: that buffer after the decodes; pt_after: Marshal() of the point object passed to
+   Compress, after everything; recomp: Compress of the decoded point (None when not decoded) *)
+| URound1 (pt : point1) (c : cres) (d d2 d3 : res1) (c_after : cres) (pt_after : point1)
+          (recomp : option cres)
+| URound2 (pt : point2) (c : cres) (d d2 d3 : res2) (c_after : cres) (pt_after : point2)
+          (recomp : option cres)
+(* m: the input buffer copied before the first call; m_after: the buffer after the third *)
+| UDec1 (m : list N) (d d2 d3 : res1) (m_after : list N) (recomp : option cres)
+| UDec2 (m : list N) (d d2 d3 : res2) (m_after : list N) (recomp : option cres)
+(* msg_kept: the message slice handed to G1HashToPoint (both calls) is byte for byte what it was *)
+| UHash (h : Z) (pt rep : res1) (msg_kept : bool)
+| UHashRun (h : Z) (run : Z) (pt rep : res1) (msg_kept : bool).
+
+Definition base_case (u : ucase) : case :=
+  match u with
+  | URound1 pt c d _ _ _ _ _ => CRound1 pt c d
+  | URound2 pt c d _ _ _ _ _ => CRound2 pt c d
+  | UDec1 m d _ _ _ _ => CDec1 m d
+  | UDec2 m d _ _ _ _ => CDec2 m d
+  | UHash h pt rep _ => CHash h pt rep
+  | UHashRun h run pt rep _ => CHashRun h run pt rep
+  end.
+Definition cres_same (a b : cres) : bool :=
+  match a, b with
+  | CBytes x, CBytes y => bytes_eqb x y
+  | CPanic, CPanic => true
+  | _, _ => false
+  end.
+(* the model of "decode the caller's buffer k times": the buffer is read, never written *)
+Fixpoint decode_again {R} (dec : list N -> R) (k : nat) (buf : list N) : list R * list N :=
+  match k with
+  | O => ([], buf)
+  | S k' => let r := dec buf in
+            let (rs, buf') := decode_again dec k' buf in (r :: rs, buf')
+  end.
+
+(* the executable property: later decodes of the same buffer return what the first returned, the
+   buffer is unchanged; for a round trip also the point handed to Compress is unchanged and the
+   decoded point compresses to the bytes it was decoded from *)
+Definition reuse_ok (u : ucase) : bool :=
+  match u with
+  | URound1 pt c d d2 d3 c_after pt_after recomp =>
+      res1_eqb d2 d && res1_eqb d3 d && cres_same c_after c && point1_eqb pt_after pt
+      && match d, recomp with
+         | R1 _, Some rc => cres_same rc c
+         | R1 _, None => false
+         | _, _ => true
+         end
+  | URound2 pt c d d2 d3 c_after pt_after recomp =>
+      res2_eqb d2 d && res2_eqb d3 d && cres_same c_after c && point2_eqb pt_after pt
+      && match d, recomp with
+         | R2 _, Some rc => cres_same rc c
+         | R2 _, None => false
+         | _, _ => true
+         end
+  | UDec1 m d d2 d3 m_after _ => res1_eqb d2 d && res1_eqb d3 d && bytes_eqb m_after m
+  | UDec2 m d d2 d3 m_after _ => res2_eqb d2 d && res2_eqb d3 d && bytes_eqb m_after m
+  | UHash _ _ _ kept | UHashRun _ _ _ _ kept => kept
+  end.
+(* correspondence only: Compress of the decoded point is the model's compression of it *)
+Definition reuse_agree (u : ucase) : bool :=
+  match u with
+  | UDec1 _ (R1 pt) _ _ _ (Some rc) => cres_eqb rc (compress1 pt)
+  | UDec2 _ (R2 pt) _ _ _ (Some rc) => cres_eqb rc (compress2 pt)
+  | UDec1 _ (R1 _) _ _ _ None | UDec2 _ (R2 _) _ _ _ None => false
+  | _ => true
+  end.
+
+Section JudgeU.
+  Variable p : Z.
+  Variable modsqrt : Z -> option Z.
+  Variable sqrt2 : gfp2 -> option gfp2.
+  Definition spec_u (u : ucase) : bool := spec p (base_case u) && reuse_ok u.
+  Definition judge_u (u : ucase) : verdict :=
+    if wellformed (base_case u)
+    then decide (spec_u u) (agree p modsqrt sqrt2 (base_case u) && reuse_agree u)
+    else BadCase.
+  Definition explain_u (u : ucase) := (explain p modsqrt sqrt2 (base_case u), reuse_ok u).
+End JudgeU.
+
 Module Concrete.
   Definition judge := judge P (mod_sqrt_big P) (sqrt_gfp2_big P).
   Definition explain := explain P (mod_sqrt_big P) (sqrt_gfp2_big P).
   (* the same on plain Z (what the theorems are about); equal by Proofs/C04.v *)
   Definition judge_Z := C04.judge P (mod_sqrt P) (sqrt_gfp2 P).
+  Definition judge_u := judge_u P (mod_sqrt_big P) (sqrt_gfp2_big P).
+  Definition explain_u := explain_u P (mod_sqrt_big P) (sqrt_gfp2_big P).
+  Definition judge_u_Z := C04.judge_u P (mod_sqrt P) (sqrt_gfp2 P).
 End Concrete.
